@@ -195,6 +195,10 @@ pub trait World: Sync + Send + 'static {
     fn generate_indexed(&self, _index: u64, seed: u64, tier: Tier) -> Self::Case {
         self.generate(seed, tier)
     }
+    /// short description of a case for violation signatures (matched against known-findings.json)
+    fn describe(&self, _case: &Self::Case) -> String {
+        String::new()
+    }
     /// cases may kill or hang the process executing them: workers report the index of the case
     /// they are about to start, deaths are attributed to it, and a watchdog re-examines slow
     /// cases in isolation
@@ -365,6 +369,7 @@ pub fn run_cases_isolated<W: World>(world: &Arc<W>, cases: &[W::Case], limit_s: 
         .arg(world.name())
         .arg(&f)
         .arg(&o)
+        .env("VERIF_IN_CHILD", "1")
         .stdout(std::process::Stdio::null())
         .stderr(std::process::Stdio::null())
         .spawn()
@@ -449,6 +454,7 @@ pub fn run_batch<W: World>(world: &Arc<W>, verif_seed: u64, tier: Tier, runs: u6
     let mut watchdog_reexams = 0u64;
     let mut last_watch = Instant::now();
     let regen = |i: u64| world.generate_indexed(i, case_seed(verif_seed, world.name(), i), tier);
+    let mut known_obs = Obs::new(world.property(), known.clone(), false);
     loop {
         let mut remaining = 0;
         let mut progressed = false;
@@ -487,11 +493,22 @@ pub fn run_batch<W: World>(world: &Arc<W>, verif_seed: u64, tier: Tier, runs: u6
                         }
                         match idx {
                             Some(i) => {
-                                let v = Violation::new("process_death", format!("worker process died: {st}"), 0, "a result or an error value", format!("the process executing the case ended with {st}"));
-                                extra_fails.push((i, regen(i), v));
-                                if i < stop_at {
-                                    stop_at = i;
-                                    let _ = std::fs::write(&stop_file, format!("{stop_at}"));
+                                let c = regen(i);
+                                let v = Violation::new("process_death", format!("{}: worker process died: {st}", world.describe(&c)), 0, "a result or an error value", format!("the process executing the case ended with {st}"));
+                                if known_obs.is_known(&v) {
+                                    // listed finding: carry on behind it
+                                    s.restarts += 1;
+                                    s.out = format!("{dir}/w{}r{}.json", s.k, s.restarts);
+                                    s.child = Some(spawn(s.k, &s.out, i + 1));
+                                    s.last_idx = None;
+                                    s.since = Instant::now();
+                                    remaining += 1;
+                                } else {
+                                    extra_fails.push((i, c, v));
+                                    if i < stop_at {
+                                        stop_at = i;
+                                        let _ = std::fs::write(&stop_file, format!("{stop_at}"));
+                                    }
                                 }
                             }
                             None => harness_error(&format!("worker {} of world {} died ({st}) before reporting a case", s.k, world.name())),
@@ -519,11 +536,16 @@ pub fn run_batch<W: World>(world: &Arc<W>, verif_seed: u64, tier: Tier, runs: u6
                                 }
                             }
                             let case = regen(i);
-                            match run_case_isolated(world, &case, 4 * stall_s) {
-                                Isolated::Finished(None) => {}
-                                Isolated::Finished(Some(v)) => extra_fails.push((i, case, v)),
-                                Isolated::Died(st) => extra_fails.push((i, case, Violation::new("process_death", format!("worker process died: {st}"), 0, "a result or an error value", format!("the process executing the case ended with {st}")))),
-                                Isolated::TimedOut => extra_fails.push((i, case, Violation::new("hang", format!("no result after {} s alone in a fresh process", 4 * stall_s), 0, "termination", "still running"))),
+                            let desc = world.describe(&case);
+                            let found = match run_case_isolated(world, &case, 4 * stall_s) {
+                                Isolated::Finished(v) => v,
+                                Isolated::Died(st) => Some(Violation::new("process_death", format!("{desc}: worker process died: {st}"), 0, "a result or an error value", format!("the process executing the case ended with {st}"))),
+                                Isolated::TimedOut => Some(Violation::new("hang", format!("{desc}: no result after {} s alone in a fresh process", 4 * stall_s), 0, "termination", "still running")),
+                            };
+                            if let Some(v) = found {
+                                if !known_obs.is_known(&v) {
+                                    extra_fails.push((i, case, v));
+                                }
                             }
                             if let Some((fi, _, _)) = extra_fails.last() {
                                 if *fi == i && i < stop_at {
@@ -542,11 +564,19 @@ pub fn run_batch<W: World>(world: &Arc<W>, verif_seed: u64, tier: Tier, runs: u6
                 Err(e) => harness_error(&format!("wait failed: {e}")),
             }
         }
-        if remaining == 0 {
+        // count again: a replacement worker may have been started in this pass
+        let _ = remaining;
+        if slots.iter().all(|s| s.child.is_none()) {
             break;
         }
         if !progressed {
             std::thread::sleep(std::time::Duration::from_millis(20));
+        }
+    }
+    for s in slots.iter_mut() {
+        if let Some(c) = s.child.as_mut() {
+            let _ = c.kill();
+            let _ = c.wait();
         }
     }
     let _ = std::fs::remove_dir_all(&dir);
@@ -572,6 +602,7 @@ pub fn run_batch<W: World>(world: &Arc<W>, verif_seed: u64, tier: Tier, runs: u6
     if isolated {
         obs.add("watchdog_reexaminations", watchdog_reexams);
     }
+    obs.merge(&known_obs);
     d.sort();
     d.dedup();
     fails.sort_by_key(|x| x.0);
